@@ -1539,6 +1539,10 @@ func (p *Printer) stmtList(stmts []*Stmt, last []Comment) {
 		}
 		if p.mustNewline || !p.minify || p.wantSpace == spaceRequired {
 			p.newlines(pos)
+		} else {
+			// The statement follows directly, so a wanted newline
+			// must not linger and show up further into the statement.
+			p.wantNewline = false
 		}
 		p.advanceLine(pos.Line())
 		p.comments(midComs...)
